@@ -696,11 +696,15 @@ A node that starts with a stored head that is not recent asks its peers for THEI
 (`processResponses`).  Within the trusting period it is then verified against the stored head: `p2pLibAdmitTP` is
 `p2pLibAdmit`, and `C03_p2plib_full` applies.  When the stored head is OLDER than the trusting period
 (`headExpired`: go-header's `isExpired`) the answer becomes the new head **without `Verify`** ("automatic subjective
-initialization"), and `store.Append` stores it when it is the next height (`staleStoreHead`).  ev-node passes no
-trusting period (library default 336 h) and binds the store to the genesis proposer at the first header only
-(`p2pBootAdmit`): after the period anybody's self-signed header that a peer calls the head is stored, served to
-light clients, and is what a light node verifies everything later against.  Finding
-`C03/p2p-store/foreign-head-adopted-after-trusting-period` (op `p2pstale`, the real `HeaderSyncService.Start`). -/
+initialization"), and `store.Append` stores it when it is the next height (`staleStoreHead`).  ev-node binds
+the store to the genesis proposer at the first header only (`p2pBootAdmit`): after the period anybody's self-signed
+header that a peer calls the head is stored, served to light clients, and is what a light node verifies everything
+later against.  Until /repo 700919b ev-node passed no trusting period (library default, 336 h): a head older than two
+weeks was enough (former finding `C03/p2p-store/foreign-head-adopted-after-trusting-period`, op `p2pstale`, the real
+`HeaderSyncService.Start`).  Since 700919b it passes `headTrustingPeriod` = 100·365·24 h: the model stays PARAMETRIC
+in the period (`C03_p2plib_stale_fails`: a finite period admits the forgery once it has passed), the property holds
+for every head younger than the period (`C03_p2plib_stale_holds_for_configured_period`), and the op line tells the
+driver the configured value, to which the real service is held by behaviour for ages up to 91 years. -/
 
 /-- the full statement for the head-request path, whatever the age of the stored head: what is admitted against a
 head naming the genesis proposer names the proposer and is signed with the proposer's key (hypothesis-free form: or a
@@ -808,6 +812,56 @@ example (hnc : AddrNoCollision proposerRaw) : ∃ sh, headerStage forgeO genuine
     (OtherKeyTypeNoCollision forgeO proposerRaw sh.signer.pubKey → SignedByProposer forgeO proposerRaw sh) :=
   C03_p2plib_within_trusting_period proposerRaw hnc 100 50 forgeO genuineHeader _ rfl (by decide +kernel)
     (by decide +kernel)
+
+/-- nanoseconds per hour (the op line gives ages and periods in hours) -/
+def hourNs : Int := 3600000000000
+/-- go-header's default trusting period: what the node ran with before /repo 700919b -/
+def oldDefaultTrustingPeriod : Int := 336 * hourNs
+/-- `headTrustingPeriod` of pkg/sync/sync_service.go since /repo 700919b: 100·365·24 h -/
+def configuredTrustingPeriod : Int := 876000 * hourNs
+
+/-- **with the configured period the full conclusion holds for every head that is not older than the period**: for
+every clock `now` with `now − head.time ≤ tp` (100 years for `tp = configuredTrustingPeriod`; the statement is for any
+`tp`), every head naming the proposer, every answer and oracle -/
+theorem C03_p2plib_stale_holds_for_configured_period (R : Bytes) (hnc : AddrNoCollision R) (tp now : Int)
+    (o : Oracle) (t : SignedHeader) (bs : Bytes) (hp : t.header.proposerAddress = keyAddress R)
+    (hage : now - int64Of t.header.time ≤ tp) (h : p2pLibAdmitTP tp now o (some t) bs = .accepted) :
+    ∃ sh, headerStage o bs = .ok sh ∧ sh.header.proposerAddress = keyAddress R ∧
+      (OtherKeyTypeNoCollision o R sh.signer.pubKey → SignedByProposer o R sh) :=
+  C03_p2plib_within_trusting_period R hnc tp now o t bs hp
+    (by simp only [headExpired, decide_eq_false_iff_not]; omega) h
+
+/-- the store's head after the head request, same hypothesis: kept, or moved to the proposer's next header -/
+theorem stale_store_head_for_configured_period (R : Bytes) (tp now : Int) (o : Oracle) (t : SignedHeader)
+    (bs : Bytes) (hp : t.header.proposerAddress = keyAddress R) (hage : now - int64Of t.header.time ≤ tp) :
+    staleStoreHead tp now o t bs = t.header.height ∨
+    ∃ sh, headerStage o bs = .ok sh ∧ staleStoreHead tp now o t bs = t.header.height + 1 ∧
+      sh.header.height = t.header.height + 1 ∧ sh.header.proposerAddress = keyAddress R ∧
+      sh.header.lastHeaderHash = t.header.hash ∧
+      (SignedByProposer o R sh ∨ AddrCollision o R sh.signer.pubKey) :=
+  stale_store_head_within_trusting_period R tp now o t bs hp
+    (by simp only [headExpired, decide_eq_false_iff_not]; omega)
+
+/-- kernel-evaluated: **the 400-hour-old head** (the former finding's input: genuine head at time 5, the clock 400 h
+later, a peer's self-signed next header) — with the old default period (336 h) the forgery was ADMITTED and became
+the store's head; with the configured period (876000 h) it is rejected at `Verify` and the store keeps its head; so
+it is at 20000 h and 800000 h (91 years); the genuine next header is taken in every case -/
+theorem old_default_period_witness :
+    p2pLibAdmitTP oldDefaultTrustingPeriod (5 + 400 * hourNs) forgeO (some genuineHeader) selfSignedNext.encode = .accepted ∧
+    staleStoreHead oldDefaultTrustingPeriod (5 + 400 * hourNs) forgeO genuineHeader selfSignedNext.encode = 2 ∧
+    p2pLibAdmitTP configuredTrustingPeriod (5 + 400 * hourNs) forgeO (some genuineHeader) selfSignedNext.encode = .rejVerify ∧
+    staleStoreHead configuredTrustingPeriod (5 + 400 * hourNs) forgeO genuineHeader selfSignedNext.encode = 1 ∧
+    staleStoreHead configuredTrustingPeriod (5 + 20000 * hourNs) forgeO genuineHeader selfSignedNext.encode = 1 ∧
+    staleStoreHead configuredTrustingPeriod (5 + 800000 * hourNs) forgeO genuineHeader selfSignedNext.encode = 1 ∧
+    staleStoreHead oldDefaultTrustingPeriod (5 + 400 * hourNs) forgeO genuineHeader genuineNext.encode = 2 ∧
+    staleStoreHead configuredTrustingPeriod (5 + 400 * hourNs) forgeO genuineHeader genuineNext.encode = 2 := by
+  decide +kernel
+
+example (hnc : AddrNoCollision proposerRaw) : ∃ sh, headerStage forgeO genuineNext.encode = .ok sh ∧
+    sh.header.proposerAddress = keyAddress proposerRaw ∧
+    (OtherKeyTypeNoCollision forgeO proposerRaw sh.signer.pubKey → SignedByProposer forgeO proposerRaw sh) :=
+  C03_p2plib_stale_holds_for_configured_period proposerRaw hnc configuredTrustingPeriod (5 + 400 * hourNs) forgeO
+    genuineHeader _ rfl (by decide +kernel) (by decide +kernel)
 
 /-! ## rejections that hold without any hypothesis -/
 
